@@ -263,20 +263,40 @@ def trace_values(data, harness, unwind, bad_checks, timeout, max_props=3):
             os.unlink(tf)
     sets = []
     for blk in out:
-        if not (isinstance(blk, dict) and "result" in blk):
+        if not isinstance(blk, dict):
             continue
-        for r in blk["result"]:
+        if "result" in blk:
+            rs = blk["result"]
+        elif "trace" in blk:
+            rs = [dict(blk, status="FAILURE")]
+        else:
+            continue
+        for r in rs:
             if r.get("status") != "FAILURE" or "trace" not in r:
                 continue
             vals = []
+            expanded = None  # lhs of a whole-array step whose elements were taken already
             for st in r["trace"]:
                 if st.get("stepType") != "assignment":
                     continue
-                if not str(st.get("lhs", "")).startswith("goto_symex$$return_value"):
+                lhs = str(st.get("lhs", ""))
+                if not lhs.startswith("goto_symex$$return_value"):
                     continue
                 if not str((st.get("sourceLocation") or {}).get("function", "")).startswith("kani::any_raw_"):
                     continue
                 v = st.get("value") or {}
+                if "elements" in v and "[" not in lhs:
+                    # arrays above CBMC's field-sensitivity limit (64) come as one step with all elements
+                    els = {int(e["index"]): e["value"] for e in v["elements"] if "index" in e}
+                    if els:
+                        for i in range(max(els) + 1):
+                            b = (els.get(i) or {}).get("binary")
+                            vals.append([int(b, 2) & 0xFF] if b else [0])
+                        expanded = lhs
+                    continue
+                if expanded and lhs.startswith(expanded + "["):
+                    continue
+                expanded = None
                 b, w = v.get("binary"), v.get("width")
                 if b is None or not w or w % 8:
                     continue
@@ -475,6 +495,8 @@ def do_check(pid, tier, seed, jobs, keep):
     n_checks = n_success = 0
     covers_total = covers_sat = 0
 
+    distinct_covers = set()
+
     def record(hname, cl):
         nonlocal n_checks, n_success, covers_total, covers_sat
         n_checks += cl["n_checks"]
@@ -482,6 +504,7 @@ def do_check(pid, tier, seed, jobs, keep):
         covers_total += len(cl["covers_sat"]) + len(cl["covers_unsat"])
         covers_sat += len(cl["covers_sat"])
         all_tag_ok.update(cl["tag_ok"])
+        distinct_covers.update(cl["covers_sat"])
 
     for e in main:
         h = e["name"]
@@ -619,12 +642,14 @@ def do_check(pid, tier, seed, jobs, keep):
     evidence = {
         "property_id": pid, "tier": tier, "seed": seed, "level": "model_checking",
         "coverage": {
-            "evaluations": n_checks,
-            "distinct_nontrivial": len(all_tag_ok) + covers_sat,
-            "rule": "evaluations = CBMC verification conditions decided by the SAT solver in this run (tagged property "
-                    "assertions plus, where this property owns panic-freedom, every panic/overflow/bounds check in the "
-                    "compiled library code); distinct_nontrivial = distinct tagged assertions of this property that came "
-                    "back SUCCESS plus distinct vacuity witnesses (kani::cover) that came back SATISFIED",
+            "evaluations": n_checks + covers_total,
+            "distinct_nontrivial": len(all_tag_ok) + len(distinct_covers),
+            "rule": "evaluations = solver queries of this run: CBMC verification conditions that are obligations of this "
+                    "property (tagged assertions plus, on harnesses where the property owns panic-freedom, every "
+                    "panic/overflow/bounds/pointer check of the compiled library) plus the cover-witness queries, summed "
+                    "over harness instances; distinct_nontrivial = number of DISTINCT (by text) tagged assertions of this "
+                    "property that came back SUCCESS plus DISTINCT (by text) vacuity witnesses that came back SATISFIED — "
+                    "the same assertion discharged on 60 instances counts once",
             "obligations": n_checks, "discharged": n_success,
             "cover_witnesses": covers_total, "cover_witnesses_satisfied": covers_sat,
             "samples": samples[:12] or [{"note": "no obligation discharged"}],
